@@ -279,7 +279,7 @@ func (s *Session) emitAxioms() error {
 	vc := newFnVC(s, nil, nil)
 	fr := &Frame{vc: vc, vals: map[ssa.Value]Term{}, locs: map[ssa.Value]*Loc{}, paramVals: map[string]Term{}, unescaped: map[string]bool{}}
 	for _, a := range s.specs.Axioms {
-		if a.Lemma {
+		if a.NoAssume {
 			continue
 		}
 		env := &Env{fr: fr, st: vc.entry, old: vc.entry, vars: map[string]Val{}, noLookup: true}
@@ -317,6 +317,103 @@ func (s *Session) emitAxioms() error {
 		s.pre.Add("ax:"+strings.Trim(trig, "|")+"#"+a.Name, "(assert "+t.S+") ; axiom "+a.Name)
 	}
 	return nil
+}
+
+// lemmaVCs builds, for every induction lemma in the loaded spec set, a proof obligation pair (base, step).  The lemma
+// itself and every lemma declared after it are excluded from the prelude of its own proof.
+func (s *Session) lemmaVCs() ([]*FnVC, error) {
+	var out []*FnVC
+	for li, a := range s.specs.Axioms {
+		if !a.Lemma {
+			continue
+		}
+		q, ok := a.E.(*SQuant)
+		if !ok || !q.Forall {
+			return nil, fmt.Errorf("lemma %s (%s) must be a universally quantified formula", a.Name, a.Src)
+		}
+		vc := newFnVC(s, nil, &Contract{Key: "lemma:" + a.Name, Pkg: a.Pkg})
+		vc.exclAx = map[string]bool{}
+		for _, b := range s.specs.Axioms[li:] {
+			if b.Lemma && !b.NoAssume {
+				vc.exclAx[b.Name] = true
+			}
+		}
+		fr := &Frame{vc: vc, vals: map[ssa.Value]Term{}, locs: map[ssa.Value]*Loc{}, paramVals: map[string]Term{}, unescaped: map[string]bool{}}
+		mk := func() *Env {
+			env := &Env{fr: fr, st: vc.entry, old: vc.entry, vars: map[string]Val{}, noLookup: true}
+			env.pkg = s.allTypes[a.Pkg]
+			return env
+		}
+		env := mk()
+		var ind Term
+		found := false
+		var ihBinders []string
+		ihEnv := mk()
+		for _, v := range q.Vars {
+			t, err := env.resolveType(v.Type)
+			if err != nil {
+				return nil, fmt.Errorf("lemma %s: %v", a.Name, err)
+			}
+			srt := env.sortOfSpecType(v.Type, t)
+			c := vc.declOnce("lm_"+v.Name, srt)
+			val := Val{T: c, Typ: t}
+			if v.Type.Kind == "map" {
+				val.Typ = nil
+			}
+			if t != nil && !(v.Type.Kind == "name" && v.Type.Pkg == "" && v.Type.Name == "int") {
+				if _, _, ok := intRange(t); ok {
+					return nil, fmt.Errorf("lemma %s: sized integer variables are not supported, use int", a.Name)
+				}
+			}
+			env.vars[v.Name] = val
+			if v.Name == a.IndVar {
+				if srt != SInt {
+					return nil, fmt.Errorf("lemma %s: induction variable must be int", a.Name)
+				}
+				ind = c
+				found = true
+				ihEnv.vars[v.Name] = Val{T: tSub(c, tInt(1)), Typ: t}
+			} else {
+				qv := Term{"q_" + v.Name, srt}
+				ihBinders = append(ihBinders, fmt.Sprintf("(%s %s)", qv.S, srt))
+				iv := val
+				iv.T = qv
+				ihEnv.vars[v.Name] = iv
+			}
+		}
+		if !found {
+			return nil, fmt.Errorf("lemma %s: induction variable %s is not bound by the outer forall", a.Name, a.IndVar)
+		}
+		var goal, ih Term
+		var err error
+		func() {
+			defer func() {
+				if r := recover(); r != nil {
+					if fe, ok := r.(fatalErr); ok {
+						err = fmt.Errorf("%s", fe.msg)
+						return
+					}
+					panic(r)
+				}
+			}()
+			goal, err = env.evalBool(q.Body)
+			if err == nil {
+				ihEnv.quantDepth = 1
+				ih, err = ihEnv.evalBool(q.Body)
+			}
+		}()
+		if err != nil {
+			return nil, fmt.Errorf("lemma %s (%s): %v", a.Name, a.Src, err)
+		}
+		if len(ihBinders) > 0 {
+			ih = Term{fmt.Sprintf("(forall (%s) %s)", strings.Join(ihBinders, " "), ih.S), SBool}
+		}
+		vc.oblige("lemma-base:"+a.Name, tLe(ind, tInt(0)), goal, "base case ("+a.IndVar+" <= 0) of lemma "+a.Name+": "+a.Text, 0)
+		vc.oblige("lemma-step:"+a.Name, tAnd(tLt(tInt(0), ind), ih), goal, "induction step ("+a.IndVar+"-1 -> "+a.IndVar+") of lemma "+a.Name+": "+a.Text, 0)
+		// the base obligation must not be assumed for the step in a way that hides a wrong step: it only speaks about n <= 0
+		out = append(out, vc)
+	}
+	return out, nil
 }
 
 func instSuffix(tf, fn *ssa.Function) string {
